@@ -38,7 +38,10 @@ pub struct Alphabet {
     pub reopen: bool,
     /// FIFO alphabet (C19): append-only puts of the next key, ticks, Fifo(limit, ttl)
     pub pnext: bool,
+    /// keys are written in strictly decreasing order instead (FIFO allows both)
+    pub pnext_desc: bool,
     pub pnext_big: bool,
+    pub ticks_ms: Vec<u64>,
     pub ticks: Vec<u64>,
     pub fifo_ttls: Vec<Option<u64>>,
     /// extra ops that are always offered
@@ -142,9 +145,10 @@ pub fn enabled_from(a: &Alphabet, d: &Driver, hist: &[Op]) -> Vec<Op> {
     if a.pnext {
         let written = d.model.keys().len();
         if written < d.cfg.keys.len() {
-            out.push(Op::Put { k: written as u8, big: false });
+            let k = if a.pnext_desc { (d.cfg.keys.len() - 1 - written) as u8 } else { written as u8 };
+            out.push(Op::Put { k, big: false });
             if a.pnext_big {
-                out.push(Op::Put { k: written as u8, big: true });
+                out.push(Op::Put { k, big: true });
             }
         }
     }
@@ -219,6 +223,9 @@ pub fn enabled_from(a: &Alphabet, d: &Driver, hist: &[Op]) -> Vec<Op> {
     }
     for t in &a.ticks {
         out.push(Op::Tick { secs: *t });
+    }
+    for t in &a.ticks_ms {
+        out.push(Op::TickMs { ms: *t });
     }
     if !a.fifo_ttls.is_empty() {
         // limits: 0, MAX, and around the cumulative size of the j newest tables (what FIFO counts)
@@ -583,7 +590,7 @@ impl Scenario for Std {
                         .iter()
                         .filter(|t| !info.dropped_tables.contains(&t.id))
                         .collect();
-                    let now_ns = (d.clock as u128) * 1_000_000_000;
+                    let now_ns = (d.clock as u128) * 1_000_000_000 + (d.clock_ms as u128) * 1_000_000;
                     let expired = |t: &crate::hx::PreTable| match ttl {
                         Some(s) if *s > 0 => t.created_at + (*s as u128) * 1_000_000_000 <= now_ns,
                         _ => false,
